@@ -335,10 +335,16 @@ def ihexEncode (exec : Option Nat) (segs : List Seg) : Except HErr Bytes :=
   if cs.any (fun c => c.addr > 0xffffffff) then .error .fmt
   else .ok (joinLines (ihexRecs 0 cs ++ ihexFooter exec))
 
+/-- S7 record when an execution start address is set -/
+def srecTail (exec : Option Nat) : List Bytes :=
+  match exec with
+  | some e => [packSrec 55 4 e []]
+  | none => []
+
+/-- record count (S5 / S6 / too many) and execution start address -/
 def srecFooter (n : Nat) (exec : Option Nat) : Except HErr (List Bytes) :=
-  let tail := match exec with | some e => [packSrec 55 4 e []] | none => []
-  if n ≤ 0xffff then .ok (packSrec 53 2 n [] :: tail)
-  else if n ≤ 0xffffff then .ok (packSrec 54 3 n [] :: tail)
+  if n ≤ 0xffff then .ok (packSrec 53 2 n [] :: srecTail exec)
+  else if n ≤ 0xffffff then .ok (packSrec 54 3 n [] :: srecTail exec)
   else .error .fmt
 
 /-- `BinFile.as_srec()` after `add_binary` of `segs` (addresses `< 2^32`) -/
